@@ -616,6 +616,8 @@ def gen_c11(rng, tier):
                 ops += ["P:a:2.9:%s:-" % rng.choice(["true", "false"]), "W", "E:b", "CB"]
         mk(cases, "perms", ops)
     # directed
+    mk(cases, "perms", ["N:a", "S:a:c0:ok", "V:a:c0:ok", "N:b", "V:b:c0:ok", "P:b:4.17:-:1", "P:a:4.17:%s:-" % sc.num(9), "G:a:4.17", "CB", "L:4.17:%s" % sc.num(5), "W", "E:b", "G:b:4.17",
+                        "P:a:4.12:%s:-" % sc.num(9), "G:a:4.12", "P:b:4.12:-:1", "CB"])
     mk(cases, "perms", ["N:a", "S:a:c0:ok", "V:a:c0:ok", "N:b", "V:b:c0:ok", "PM:b:4.13~-~1+2.9~-~1", "PM:b:1.5~-~1+4.14~-~1+2.9~true~-", "L:2.9:false", "W", "E:b"])
     mk(cases, "perms", ["N:a", "S:a:c0:ok", "V:a:c0:ok", "N:b", "V:b:c0:ok", "P:b:4.15:-:1", "P:a:4.15:%s:-" % jstr("secret"), "W", "E:b", "L:4.15:%s" % jstr("local"), "W", "E:b", "G:b:4.15", "A:b"])
     return cases
@@ -630,11 +632,22 @@ def oracle_c11(c, obs):
     it = iter(pairs)
     nowrite = set()
     evref = set()
+    localv = {}
     for op in ops:
         p = op.split(":")
         tok = None
         if p[0] in EMITS:
             _, tok = next(it)
+        if p[0] == "L":
+            vt = ":".join(p[2:])
+            want = ("s:" + vt.split("~")[1]) if vt.startswith("J") else ("num:%r" % float(vt.split("@")[0]) if "@" in vt else sc.canon_val(vt))
+            if want.startswith("num:") and p[1] in rows:
+                x = float(want[4:])
+                for b, f in (("min", max), ("max", min)):
+                    if rows[p[1]][b] != "-":
+                        x = f(x, float(sc.canon_model_val(rows[p[1]][b])[4:]))
+                want = "num:%r" % x
+            localv[p[1]] = want
         if p[0] == "P":
             cid, ev = p[2], p[-1]
             val = ":".join(p[3:-1])
@@ -658,9 +671,9 @@ def oracle_c11(c, obs):
                 if cid in rows and "r" not in rows[cid]["perms"] and "=" in e:
                     return "%s has no read permission but a value is revealed: %s" % (cid, e[:60])
                 if cid in nowrite and cid in rows and "=" in e:
-                    init = sc.canon_model_val(rows[cid]["value"])
+                    init = localv.get(cid, sc.canon_model_val(rows[cid]["value"]))       # what the application last set, else the initial value
                     got = sc.canon_val(e.split("=", 1)[1].split("!")[0])
-                    if got != init and cid not in ("4.12",) or (cid == "4.12" and got != init and not any(o.startswith("L:4.12") for o in ops)):
+                    if got != init:
                         return "remote write changed %s although it has no write permission: %s" % (cid, e[:60])
         if p[0] == "A":
             for cid in rows:
